@@ -71,6 +71,15 @@ def gen_cases(rng, tier):
                 nm.insert(rng.randrange(len(nm) + 1), form % (prev, tgt))
             steps.append({"dst": rng.choice(sib[d]), "names": nm})
         cases.append({"id": len(cases), "steps": steps})
+    # the SAME ZipFile object extracted into two or three different destinations (e.g. a server re-opening a
+    # collection): every extraction must stay inside its own destination
+    for j in range(60 if tier == "quick" else 1200):
+        order = rng.sample(sorted(sib), rng.choice([2, 2, 3]))
+        nm = list(rng.choice([["images/a.png", "nfo.json"], ["nfo.json", "b/c/d.txt"], ["images/", "images/a.png", "x"]]))
+        if rng.random() < 0.5:
+            nm.append(rng.choice(["../%s/extra.txt" % order[0], "a/../b.txt", "./c.txt"]))
+        cases.append({"id": len(cases), "reuse_zip": True,
+                      "steps": [{"dst": rng.choice(sib[d]), "names": nm} for d in order]})
     return cases
 
 
